@@ -26,47 +26,56 @@ Main == "main"
 WTs == {Main} \cup Linked
 Absent == [exists |-> FALSE, head |-> "none", headc |-> 0, idx |-> "none", file |-> "none"]
 
-VARIABLES commits, refs, wt, hist
-vars == <<commits, refs, wt, hist>>
+VARIABLES commits, refs, wt, hist,
+          stale   \* linked names whose directory (with its .git file) was left behind by a remove
+vars == <<commits, refs, wt, hist, stale>>
 
 Init == /\ commits = <<V0>>
         /\ refs = [b \in {"master"} \cup Linked |-> IF b = "master" THEN 1 ELSE 0]
         /\ wt = [w \in WTs |-> IF w = Main THEN [exists |-> TRUE, head |-> "master", headc |-> 1, idx |-> V0, file |-> V0] ELSE Absent]
-        /\ hist = <<>>
+        /\ hist = <<>> /\ stale = {}
 
 State(c, r, t) == [commits |-> c, refs |-> r, wt |-> t]
 Log(op, w, a, res) == hist' = Append(hist, [op |-> op, w |-> w, a |-> a, res |-> res, st |-> State(commits', refs', wt')])
 
 Edit(w, v) == /\ wt[w].exists /\ wt[w].file # v
-              /\ wt' = [wt EXCEPT ![w].file = v] /\ UNCHANGED <<commits, refs>> /\ Log("edit", w, v, "ok")
+              /\ wt' = [wt EXCEPT ![w].file = v] /\ UNCHANGED <<commits, refs>> /\ Log("edit", w, v, "ok") /\ UNCHANGED stale
 Stage(w) == /\ wt[w].exists /\ wt[w].idx # wt[w].file
-            /\ wt' = [wt EXCEPT ![w].idx = wt[w].file] /\ UNCHANGED <<commits, refs>> /\ Log("stage", w, "none", "ok")
+            /\ wt' = [wt EXCEPT ![w].idx = wt[w].file] /\ UNCHANGED <<commits, refs>> /\ Log("stage", w, "none", "ok") /\ UNCHANGED stale
 Commit(w) == /\ wt[w].exists /\ Len(commits) < MaxCommits /\ wt[w].idx # commits[wt[w].headc]
              /\ commits' = Append(commits, wt[w].idx)
              /\ LET k == Len(commits) + 1 IN
                   /\ wt' = [wt EXCEPT ![w].headc = k]
                   /\ refs' = IF wt[w].head = "detached" THEN refs ELSE [refs EXCEPT ![wt[w].head] = k]
-             /\ Log("commit", w, "none", "ok")
+             /\ Log("commit", w, "none", "ok") /\ UNCHANGED stale
 ResetHard(w, c) == /\ wt[w].exists /\ c \in 1..Len(commits) /\ c # wt[w].headc
                    /\ wt' = [wt EXCEPT ![w].headc = c, ![w].idx = commits[c], ![w].file = commits[c]]
                    /\ refs' = IF wt[w].head = "detached" THEN refs ELSE [refs EXCEPT ![wt[w].head] = c]
-                   /\ UNCHANGED commits /\ Log("reset-hard", w, c, "ok")
+                   /\ UNCHANGED commits /\ Log("reset-hard", w, c, "ok") /\ UNCHANGED stale
 \* git worktree add <dir> (-b <name> | --detach): starts at the main worktree's HEAD commit
 WtAdd(w, detached) ==
   /\ w \in Linked /\ ~wt[w].exists /\ (detached \/ refs[w] = 0)
   /\ LET c == wt[Main].headc IN
        /\ wt' = [wt EXCEPT ![w] = [exists |-> TRUE, head |-> IF detached THEN "detached" ELSE w, headc |-> c, idx |-> commits[c], file |-> commits[c]]]
        /\ refs' = IF detached THEN refs ELSE [refs EXCEPT ![w] = c]
+  /\ stale' = stale \ {w}      \* the replay clears the directory before adding
   /\ UNCHANGED commits /\ Log(IF detached THEN "wt-add-detached" ELSE "wt-add", w, "none", "ok")
+\* Remove deletes the administrative entry only; the directory and its .git file stay behind
 WtRemove(w) == /\ w \in Linked /\ wt[w].exists
-               /\ wt' = [wt EXCEPT ![w] = Absent] /\ UNCHANGED <<commits, refs>> /\ Log("wt-remove", w, "none", "ok")
+               /\ wt' = [wt EXCEPT ![w] = Absent] /\ stale' = stale \cup {w}
+               /\ UNCHANGED <<commits, refs>> /\ Log("wt-remove", w, "none", "ok")
+\* Someone opens the left-behind directory and tries to work in it (edit, stage, commit).  It is not a
+\* worktree any more (git: "not a git repository"), so nothing of the repository may change: in particular
+\* the operations must not land in the main worktree's HEAD, index or branch.
+UseStale(w) == /\ w \in stale
+               /\ UNCHANGED <<commits, refs, wt, stale>> /\ Log("use-stale", w, "none", "refused")
 
 Next == /\ Len(hist) < MaxOps
         /\ \/ \E w \in WTs, v \in Versions : Edit(w, v)
            \/ \E w \in WTs : Stage(w) \/ Commit(w)
            \/ \E w \in WTs, c \in 1..MaxCommits : ResetHard(w, c)
            \/ \E w \in Linked, d \in BOOLEAN : WtAdd(w, d)
-           \/ \E w \in Linked : WtRemove(w)
+           \/ \E w \in Linked : WtRemove(w) \/ UseStale(w)
 Spec == Init /\ [][Next]_vars
 
 \* ---- properties of the model (C33)
